@@ -78,6 +78,13 @@ def t3(rep, tier, seed):
         for argv in [["--icsv", "--ojson", "cat", good], ["--icsv", "--ocsv", "tac", good], ["--icsv", "--opprint", "cat", small],
                      ["--icsv", "--ojson", "put", "-q", "print $a", good], ["-n", "put", "end{print 1}"], ["--icsv", "--oxtab", "head", "-n", "1", good]]:
             cases.append(("stdout-full", argv, None, "/dev/full"))
+        # 5b. ... reached only through a DSL redirect to the `stdout` / `stderr` keyword while the record writer prints nothing
+        for stmt in ["tee > stdout, $*", "emit > stdout, $*", "print > stdout, $a", "dump > stdout, $*", "emitf > stdout, @x", "printn > stdout, $a"]:
+            pre = "@x = 1; " if "emitf" in stmt else ""
+            cases.append(("stdout-full-redirect", ["--icsv", "--ojson", "put", "-q", pre + stmt, good], None, "/dev/full"))
+            cases.append(("stdout-full-redirect", ["--icsv", "--ojson", "put", "-q", pre + stmt, small], None, "/dev/full"))
+        cases.append(("stdout-full-redirect", ["-n", "--ojson", "put", 'end{emit > stdout, {"a": 1}}'], None, "/dev/full"))
+        cases.append(("stdout-full-redirect", ["-n", "--ojson", "put", 'end{tee > stdout, {"a": 1}}'], None, "/dev/full"))
         # 6. tee / split / redirect targets that cannot be written
         nodir = os.path.join(base, "no", "such", "dir")
         cases.append(("unwritable-tee", ["--icsv", "--ojson", "tee", os.path.join(nodir, "t.out"), good], None, None))
